@@ -388,12 +388,12 @@ def _who(F, eid):
     return eid
 
 
-def all_complete(F: Facts, clause: str):
+def all_complete(F: Facts, clause: str, skip=()):
     """every accepted event complete at quiescence"""
     v = []
     for ev in sorted(F.accepted):
         s = F.final.get(ev)
-        if s is None:
+        if s is None or ev in skip:
             continue
         bad = [(r['h'], r['bus'], r['st']) for r in s['results'] if r['st'] not in TERMINAL]
         if s['status'] != 'completed' or not s['sig'] or bad:
@@ -551,15 +551,33 @@ def c11(F: Facts):
             raised[(r['bus'], r['ev'], r['h'])] = 'raise'
         if r['k'] == 'exit' and r['how'] == 'raise-cancelled':
             own_cancel.add((r['bus'], r['ev'], r['h']))
-    if not F.hang:
+    # stop() sub-family: what stop() abandons (events accepted by a bus that is stopped at some point, and their ancestors, which wait
+    # for them) is not judged; everything else - in particular an event whose forward to the stopped bus was REFUSED - is
+    stops = bool(F.sc.get('stops'))
+    stopped = {r['bus'] for r in F.tr if r['k'] == 'a-stop-begin'}
+    abandoned = set()
+    if stops:
+        for (bus, ev) in F.enq:
+            if bus in stopped:
+                x, hops = ev, 0
+                while x is not None and x not in abandoned and hops < 1000:
+                    abandoned.add(x)
+                    p = F.parent.get(x)
+                    x = p[1] if (p is not None and p[0] != 'A') else None
+                    hops += 1
+                # ... and their descendants: a handler of the stopped bus may be cancelled while it processes a child inline
+                abandoned.update(F.descendants(ev))
+    if not F.hang or stops:
         for (bus, ev), idxs in F.enq.items():
             s = fin.get(ev)
-            if s is None:
+            if s is None or bus in stopped:
                 continue
             for hi in sorted(F.expected(bus, ev)):
                 me = (bus, ev, hi)
                 n = len(F.enters.get(me, []))
                 rows = [r for r in s['results'] if r['h'] == f'h{hi}' and r['bus'] == bus]
+                if stops and ev in abandoned and me not in raised and me not in own_cancel:
+                    continue
                 if with_timeouts:
                     # handlers cut off by a timeout, and handlers of an event whose processing an awaiting ancestor's timeout
                     # interrupted, are C10's subject; everything that raised on its own is still judged below
@@ -589,7 +607,7 @@ def c11(F: Facts):
                 else:
                     if r['st'] != 'completed':
                         v.append(('C11.b', f'handler h{hi} of event {ev} on {bus} did not raise but its result is {r["st"]} ({r["err"]})'))
-        v.extend(all_complete(F, 'C11.c'))
+        v.extend(x for x in all_complete(F, 'C11.c', skip=abandoned))
     else:
         v.append(('C11.c', f'run did not reach quiescence: {hang_text(F)}'))
     for r in F.tr:
